@@ -36,8 +36,8 @@ PKGNAME = {"root": "gomatrixserverlib", "fclient": "fclient", "spec": "spec", "t
 KIT = ["vf_kit_test.go"]
 PROPS = {}
 
-def prop(pid, files, shared=None, fuzz=(), race=False, assumptions=(), timeout_quick=600, timeout_thorough=3600, rapidfuzz=()):
-    PROPS[pid] = dict(files=files, shared=shared or {}, fuzz=list(fuzz), race=race, rapidfuzz=list(rapidfuzz),
+def prop(pid, files, shared=None, fuzz=(), race=False, assumptions=(), timeout_quick=600, timeout_thorough=3600, rapidfuzz=(), fatalwatch=False):
+    PROPS[pid] = dict(files=files, shared=shared or {}, fuzz=list(fuzz), race=race, rapidfuzz=list(rapidfuzz), fatalwatch=fatalwatch,
                       assumptions=list(assumptions), tq=timeout_quick, tt=timeout_thorough)
 
 exec(open(os.path.join(VERIF, "props.py")).read())
@@ -160,15 +160,51 @@ def known_lines(pid):
             out.append((s.group(1), desc))
     return out
 
+def limit_memory():
+    # no memory limit in the sandbox: a runaway case must kill its own worker, not the machine
+    import resource
+    resource.setrlimit(resource.RLIMIT_AS, (24 << 30, 24 << 30))
+
 def run_job(job):
     t0 = time.time()
     try:
-        r = run(job["cmd"], cwd=job["cwd"], env=job["env"], timeout=job["timeout"])
+        r = subprocess.run(job["cmd"], cwd=job["cwd"], env=job["env"], timeout=job["timeout"], stdout=subprocess.PIPE,
+                           stderr=subprocess.STDOUT, text=True, errors="replace", preexec_fn=job.get("limit"))
         job["rc"], job["out"] = r.returncode, r.stdout
     except subprocess.TimeoutExpired as e:
         job["rc"], job["out"] = -9, "TIMEOUT after %ss\n%s" % (job["timeout"], (e.stdout or "")[-3000:] if isinstance(e.stdout, str) else "")
     job["wall"] = time.time() - t0
     return job
+
+FATAL_RE = re.compile(r"^(fatal error: .*|runtime: goroutine stack exceeds .*)$", re.M)
+FRAME_RE = re.compile(r"^github\.com/matrix-org/gomatrixserverlib(?:/(\w+))?\.([^\s(]+(?:\([^)]*\))?[^\s(]*)\(", re.M)
+
+def fatal_violation(pid, job):
+    """A runtime fatal error (stack overflow, concurrent map access, ...) killed the worker: recover()
+    can not see it.  With the fatal-crash watch on, the case that was being evaluated is on disk."""
+    cur = job["env"].get("VF_CURCASE")
+    out = job.get("out") or ""
+    m = FATAL_RE.search(out)
+    if not (cur and m and os.path.exists(cur)):
+        return None
+    try:
+        rec = json.load(open(cur))
+    except Exception:
+        return None
+    kind = "stack-overflow" if "stack" in m.group(1) else slug(m.group(1).replace("fatal error: ", ""))[:40]
+    func = "unknown"
+    for fm in FRAME_RE.finditer(out):
+        name = fm.group(2)
+        if "vf" in name.lower() and ("vf_" in name or name.startswith("vf") or name.startswith("c1")):
+            continue
+        name = re.sub(r"\.func\d+(\.\d+)*$", "", name.replace("(*", "").replace(")", ""))
+        if re.match(r"^(Test|Fuzz|vf|c\d\d)", name):
+            continue
+        func = name
+        break
+    return dict(prop=rec.get("prop", job["name"]), sig="%s/fatal/%s/%s" % (pid, kind, func),
+                msg="the process died with a runtime fatal error while this case was evaluated: %s\n%s" % (m.group(1), out[m.start():m.start() + 1500]),
+                case=rec.get("case"))
 
 def check(pid, tier, seed, keep=False):
     t0 = time.time()
@@ -207,12 +243,17 @@ def check(pid, tier, seed, keep=False):
                     if p["kind"] == "rapid":
                         n = max(1, amount // nshards)
                         cmd += ["-rapid.checks", str(n)]
-                    jobs.append(dict(name=p["name"], shard=sh, cmd=cmd, cwd=cwd, env=env, stats=sp, timeout=timeout + 30))
+                    if cfg.get("fatalwatch"):
+                        env["VF_CURCASE"] = sp + ".cur"
+                    jobs.append(dict(name=p["name"], shard=sh, cmd=cmd, cwd=cwd, env=env, stats=sp, timeout=timeout + 30,
+                                     limit=None if cfg["race"] else limit_memory))
             # replay tier: committed witnesses for this property
             files = sorted(glob.glob(os.path.join(VERIF, "replays", pid, "*.json")))
             if files:
                 sp = os.path.join(statsdir, "replay-%s.json" % pkg)
                 env = dict(GOENV, VF_MODE="replay", VF_REPLAY=",".join(files), VF_STATS=sp, VF_KNOWN=KNOWN, VF_TIER=tier)
+                if cfg.get("fatalwatch"):
+                    env["VF_CURCASE"] = sp + ".cur"
                 jobs.append(dict(name="replay/" + pkg, shard=0, cmd=[binary, "-test.run", "^TestVF$", "-test.timeout", "300s"],
                                  cwd=cwd, env=env, stats=sp, timeout=330))
         log("  %d jobs" % len(jobs))
@@ -225,6 +266,11 @@ def check(pid, tier, seed, keep=False):
                     st = json.load(open(j["stats"]))
                 except Exception:
                     st = None
+            fatal = fatal_violation(pid, j) if (st is None or j["rc"] != 0) else None
+            if fatal:
+                merged["violations"][fatal["prop"] + "|" + fatal["sig"]] = fatal
+                if st is None:
+                    continue
             if st is None:
                 infra.append("job %s shard %d produced no stats (rc=%s):\n%s" % (j["name"], j["shard"], j["rc"], j["out"][-2500:]))
                 continue
@@ -255,7 +301,7 @@ def check(pid, tier, seed, keep=False):
             for k, v in st["notes"].items():
                 merged["notes"][k] = merged["notes"].get(k, 0) + v
             viol_here = [v for v in st["violations"].values()]
-            if j["rc"] != 0 and not viol_here:
+            if j["rc"] != 0 and not viol_here and not fatal:
                 infra.append("job %s shard %d failed without a recorded violation (rc=%s):\n%s" % (j["name"], j["shard"], j["rc"], j["out"][-2500:]))
             if j["rc"] == 0 and j["name"] in rules and "-rapid.checks" in j["cmd"]:
                 m = re.search(r"OK, passed (\d+) tests", j["out"])
